@@ -114,7 +114,12 @@ def harness(case, tier):
     for d in sent:
         c.prove(blen(d) <= M, 'fragment-within-mtu', detail=dict(size=blen(d), mtu=M))
     if not sent:
-        # impossible to fragment: nothing altered or oversized may have been transmitted (nothing was)
+        # impossible to fragment: nothing altered or oversized may have been transmitted (nothing was).
+        # It must really be impossible: with room for the non-payload part plus the fragment fields
+        # (two uints and a byte-string head of at most 9 octets each) and one payload octet, fragments are due.
+        room = (blen(ref) - P) + 28
+        c.prove((M < room) | (P == 0), 'fragmentable-bundle-is-sent-as-fragments',
+                detail=dict(M=M, non_payload=blen(ref) - P, P=P, err=repr(err)))
         return {'class': 'impossible', 'n': 0, 'err': type(err).__name__}
     orig = rfc9171.decode_bundle(ref)
     off = 0
